@@ -7,7 +7,8 @@ NOT_APPLICABLE = {
            'under contract here, so the byte side could only be an assumed table; (b) the code side, "type_info() of each built-in impl returns the documented shape", was tried on the rustc-expanded '
            'src/impls.rs: the bodies drive the builders with un-annotated closure literals (`.variant("Some", |v| v.index(1).fields(..))`), to which Verus attaches no postcondition, and the only rewrite that '
            'would help (inlining builder and closure bodies) turns the code into a model. What IS proved about these impls is their identity structure (C05 / C16: alias forwarding, one identity per '
-           'impl) and the builder functions they call (C17).',
+           'impl), the builder / constructor functions they call (C17, incl. TypeDefTuple::new and the `From<TypeDefX> for Type` conversions) and, structurally, that src/impls.rs builds no definition '
+           'with a struct literal, i.e. only through those functions (obligations no_literal::impls, C17).',
     'C09': 'proc-macro over all programs x feature configurations (as C03); the one pure function (clean_type_string) is a private String pipeline covering a sliver of the statement',
     'C13': 'decided by rustc trait solver per generated program (programs that must compile) - no contract can express it',
     'C19': 'schemars-derive output (JsonSchema impls building schema objects through the schemars API) x serde output x the semantics of JSON Schema validation: a contract would need a specification of '
